@@ -261,4 +261,69 @@ def canonEncScalar (cfmt : Bool → Nat → Bytes) (k : Kind) (v : Scalar) : Opt
       | none => some (.num (showInt n))
   | _, _ => none
 
+/-- canonical proto3 JSON of a list / of the entries of a map (member names are `MapKey.String()`) -/
+def canonEncList (cfmt : Bool → Nat → Bytes) (k : Kind) : List Scalar → Option (List J)
+  | [] => some []
+  | v :: vs =>
+    match canonEncScalar cfmt k v, canonEncList cfmt k vs with
+    | some j, some js => some (j :: js)
+    | _, _ => none
+
+def canonEncMap (cfmt : Bool → Nat → Bytes) (k : Kind) : List (Scalar × Scalar) → Option (List (Bytes × J))
+  | [] => some []
+  | (key, v) :: rest =>
+    match canonEncScalar cfmt k v, canonEncMap cfmt k rest with
+    | some j, some es => some ((keyString key, j) :: es)
+    | _, _ => none
+
+/-- the canonical proto3 JSON encoder for the value of one field (what protojson emits for the member):
+    64-bit integers as strings, 32-bit as numbers, enum names (numbers when unknown), std padded base64,
+    "NaN"/"Infinity"/"-Infinity", map keys as strings; an unset singular field is emitted with its default. -/
+def canonEncode (cfmt : Bool → Nat → Bytes) (k : Kind) (f : Field) : Option J :=
+  match f with
+  | .sing (some v) => canonEncScalar cfmt k v
+  | .sing none => canonEncScalar cfmt k (defaultOf k)
+  | .list xs => (canonEncList cfmt k xs).map .arr
+  | .map kvs => (canonEncMap cfmt k kvs).map .obj
+
+/-! ### the typed value domain (protoreflect values are typed) -/
+
+/-- the scalar is a value of the field's kind: integers within the kind's range, enum numbers are int32,
+    `NullValue` has the single value 0 -/
+def Typed : Kind → Scalar → Prop
+  | .bool, .bool _ => True
+  | .int32, .int i => -(2 ^ 31 : Int) ≤ i ∧ i < (2 ^ 31 : Int)
+  | .int64, .int i => -(2 ^ 63 : Int) ≤ i ∧ i < (2 ^ 63 : Int)
+  | .uint32, .int i => 0 ≤ i ∧ i < (2 ^ 32 : Int)
+  | .uint64, .int i => 0 ≤ i ∧ i < (2 ^ 64 : Int)
+  | .float, .flt _ | .double, .flt _ => True
+  | .string, .str _ => True
+  | .bytes, .bytes _ => True
+  | .enum _ nv, .enum n => -(2 ^ 31 : Int) ≤ n ∧ n < (2 ^ 31 : Int) ∧ (nv = true → n = 0)
+  | _, _ => False
+
+/-- the kinds proto3 permits as map keys -/
+def isKeyKind : Kind → Bool
+  | .bool | .int32 | .int64 | .uint32 | .uint64 | .string => true
+  | _ => false
+
+/-- the field value is typed for (cardinality, kind); map keys are pairwise distinct (it is a map) -/
+def FieldTyped : Card → Kind → Field → Prop
+  | .sing, k, .sing (some v) => Typed k v
+  | .sing, _, .sing none => True
+  | .rep, k, .list xs => ∀ v, v ∈ xs → Typed k v
+  | .map kk, k, .map kvs => isKeyKind kk = true ∧ (∀ p, p ∈ kvs → Typed kk p.1 ∧ Typed k p.2) ∧ keysUnique kvs = true
+  | _, _, _ => False
+
+/-- value names of an enum are unique (protodesc enforces it): the name found for a number leads back to it -/
+def EnumNamesUnique : Kind → Prop
+  | .enum vals _ => ∀ n name, byNumber vals n = some name → byName vals name = some n
+  | _ => True
+
+/-- pairwise distinct value names (what protodesc validates) -/
+def namesNodup : EnumDesc → Bool
+  | [] => true
+  | (nm, _) :: rest => !rest.any (fun p => p.1 == nm) && namesNodup rest
+
+
 end GB.C09
